@@ -49,6 +49,10 @@ struct Shared {
     /// CLOCK_REALTIME = T0 + monotonic + this offset; the offset jumps when the wall clock is stepped.
     real_offset_ns: AtomicI64,
     rt_steps: Mutex<Vec<i64>>,
+    /// Time spent suspended so far (CLOCK_BOOTTIME = monotonic + this), and per step how long the
+    /// machine was suspended right before it.
+    boot_offset_ns: AtomicI64,
+    suspend_steps: Mutex<Vec<i64>>,
     /// Per step: what the PHC error-bound file holds (None: the file is absent), when PHC is configured.
     phc_plan: Mutex<Vec<Option<i64>>>,
     /// Per step: (errno, how many reads) the reads of the PHC error-bound file fail with.
@@ -223,7 +227,7 @@ pub fn run(a: &Args) -> Value {
     let with_slow = a.map.get("slow").map(|s| s == "1").unwrap_or(false);
     // One long life of a single poller (thousands of polls): state that accumulates.
     let mut long_n: usize = a.map.get("long").and_then(|s| s.parse().ok()).unwrap_or(0);
-    let sh = Arc::new(Shared { mono_ns: AtomicI64::new(0), latency_ns: AtomicI64::new(0), real_offset_ns: AtomicI64::new(0), rt_steps: Mutex::new(Vec::new()), phc_plan: Mutex::new(Vec::new()), phc_read_failures: Mutex::new(Vec::new()), step: AtomicUsize::new(0), script: Mutex::new(Vec::new()), socket: Mutex::new(None), mode: Mutex::new(Action::Answer), stop: AtomicBool::new(false), coarse_reads: AtomicUsize::new(0), requests_this_step: AtomicUsize::new(0) });
+    let sh = Arc::new(Shared { mono_ns: AtomicI64::new(0), latency_ns: AtomicI64::new(0), real_offset_ns: AtomicI64::new(0), rt_steps: Mutex::new(Vec::new()), boot_offset_ns: AtomicI64::new(0), suspend_steps: Mutex::new(Vec::new()), phc_plan: Mutex::new(Vec::new()), phc_read_failures: Mutex::new(Vec::new()), step: AtomicUsize::new(0), script: Mutex::new(Vec::new()), socket: Mutex::new(None), mode: Mutex::new(Action::Answer), stop: AtomicBool::new(false), coarse_reads: AtomicUsize::new(0), requests_this_step: AtomicUsize::new(0) });
     // Virtual clock: every CLOCK_MONOTONIC_COARSE read of a virtual thread starts the next step.
     {
         let sh = sh.clone();
@@ -239,6 +243,10 @@ pub fn run(a: &Args) -> Value {
                     sh.latency_ns.store(lat, Ordering::SeqCst);
                     let step = sh.rt_steps.lock().unwrap().get(k).cloned().unwrap_or(0);
                     sh.real_offset_ns.fetch_add(step, Ordering::SeqCst);
+                    // suspended before this poll: wall clock and CLOCK_BOOTTIME moved on, the monotonic clock did not
+                    let slept = sh.suspend_steps.lock().unwrap().get(k).cloned().unwrap_or(0);
+                    sh.real_offset_ns.fetch_add(slept, Ordering::SeqCst);
+                    sh.boot_offset_ns.fetch_add(slept, Ordering::SeqCst);
                     // the device's error bound as of this poll (rewritten in place, or gone)
                     if let Some(plan) = sh.phc_plan.lock().unwrap().get(k).cloned() {
                         match plan {
@@ -276,7 +284,13 @@ pub fn run(a: &Args) -> Value {
                     }
                 }
             }
-            let v = if clk == libc::CLOCK_REALTIME { T0_REAL_S * NS as i64 + sh.mono_ns.load(Ordering::SeqCst) + sh.real_offset_ns.load(Ordering::SeqCst) } else { sh.mono_ns.load(Ordering::SeqCst) };
+            let v = if clk == libc::CLOCK_REALTIME || clk == libc::CLOCK_REALTIME_COARSE {
+                T0_REAL_S * NS as i64 + sh.mono_ns.load(Ordering::SeqCst) + sh.real_offset_ns.load(Ordering::SeqCst)
+            } else if clk == libc::CLOCK_BOOTTIME || clk == libc::CLOCK_BOOTTIME_ALARM {
+                sh.mono_ns.load(Ordering::SeqCst) + sh.boot_offset_ns.load(Ordering::SeqCst)
+            } else {
+                sh.mono_ns.load(Ordering::SeqCst)
+            };
             (v.div_euclid(NS as i64), v.rem_euclid(NS as i64))
         }));
     }
@@ -314,6 +328,10 @@ pub fn run(a: &Args) -> Value {
         // a matter of elapsed (monotonic) time only.
         *sh.rt_steps.lock().unwrap() = (0..script.len()).map(|_| if long_now { 0 } else { match rng.below(10) { 0 => -60_000_000_000, 1 => 4_000_000_000, 2 => -4_000_000_000, 3 => 3_600_000_000_000, _ => 0 } }).collect();
         sh.real_offset_ns.store(0, Ordering::SeqCst);
+        sh.boot_offset_ns.store(0, Ordering::SeqCst);
+        *sh.suspend_steps.lock().unwrap() = (0..script.len()).map(|_| if !long_now && rng.chance(1, 12) { *rng.pick(&[1_500_000_000i64, 30_000_000_000, 3_600_000_000_000]) } else { 0 }).collect();
+        let n_susp = sh.suspend_steps.lock().unwrap().iter().filter(|s| **s > 0).count() as u64;
+        *kinds.entry("suspends-before-a-poll".to_string()).or_insert(0) += n_susp;
         let with_phc = long_now || rng.chance(1, 2);
         let phc_plan: Vec<Option<i64>> = if long_now { vec![Some(12345); script.len()] } else if with_phc { (0..script.len()).map(|_| if rng.chance(1, 8) { None } else { Some(*rng.pick(&[0i64, 1, 250, 12345, 31_000, 3_000_000])) }).collect() } else { Vec::new() };
         *sh.phc_plan.lock().unwrap() = phc_plan.clone();
